@@ -507,6 +507,17 @@ theorem callsOf_eq {O : Oracle} {s : Store} {now : Nat} {all : List Signer} :
     unfold callsOfOne callsFor
     rw [h1, h2]
 
+/-- relate the validated triples to the list of their rules -/
+theorem forall2_rules {O : Oracle} {s : Store} {now : Nat} {all : List Signer} :
+    ∀ {ctxs : List Ctx} {vs : List (Rule × Ctx × List Signer)},
+      Forall2 (fun c v => Chosen O s now c all v.1 ∧ v.2.1 = c ∧ v.2.2 = counted v.1 all) ctxs vs →
+      Forall2 (fun c r => Chosen O s now c all r) ctxs (vs.map (·.1)) := by
+  intro ctxs vs h
+  induction h with
+  | nil => exact Forall2.nil
+  | cons hab _ ih => exact Forall2.cons hab.1 ih
+
+
 /-! ### only the rule's own signers matter -/
 
 theorem find?_congr' {α} (p q : α → Bool) (l : List α) (h : ∀ x ∈ l, p x = q x) : l.find? p = l.find? q := by
